@@ -131,6 +131,13 @@ impl Cluster {
     pub fn get_bytes(&self, index: BlobIdx) -> Result<ByteRegion> {
         #[cfg(jubako_verif)]
         crate::verif::point("cluster_get_bytes", index.into_u64(), 0);
+        if index.into_usize() + 1 >= self.blob_offsets.len() {
+            return Err(format_error!(format!(
+                "Blob index ({}) is not valid in regard of the blob count of the cluster ({})",
+                index.into_usize(),
+                self.blob_offsets.len() - 1
+            )));
+        }
         self.build_plain_reader()?;
         let offset = self.blob_offsets[index.into_usize()];
         let end_offset = self.blob_offsets[index.into_usize() + 1];
